@@ -11,7 +11,7 @@ func init() {
 // tip is a maximal-work known header and heights 0..tip are exactly its ancestry.
 func VerifC01History() {
 	steps := verifParam("steps", 4)
-	ops := verifParam("ops", 3) // 1: submit only, 2: +clean, 3: +save/load
+	ops := verifParam("ops", 3) // 1: submit only, 2: +clean, 3: +save/load, 4: +re-submission of a known header
 	h := newHist(1000)
 	h.setupState()
 	for s := 0; s < steps; s++ {
@@ -36,6 +36,13 @@ func VerifC01History() {
 			err := h.saveLoad()
 			verifAssert(err == nil, "save-load-returns-error")
 			verifReach("reloaded")
+		case 3:
+			// a header that was submitted before arrives again (another peer announces it)
+			if len(h.hdr) > 1 {
+				k := 1 + pick(fmt.Sprintf("again%d", s), len(h.hdr)-1)
+				h.repo.ProcessHeader(h.ctx, h.hdr[k])
+				verifReach("resubmitted")
+			}
 		}
 		h.checkTip("")
 	}
